@@ -102,6 +102,16 @@ def run(ctx):
     # ---- r4 body commitment ------------------------------------------------------------------
     body_commitment(ctx)
     proved_data_provenance(ctx)
+    # r6 (F30): the MMR library sorts the leaves by position and silently drops all but one leaf per position, so the headers
+    # handed to MerkleProof::verify must be at pairwise distinct heights — otherwise an unproven header rides on the proof of a
+    # proven header of the same height
+    from engine import census
+    V = ctx.body('verify_mmr_proof')
+    act, _ = census.compute(P, 'verify_mmr_proof')
+    uniq = [e for e in act if e['cls'] == 'reject' and any('slice::windows' in a and 'HeaderView::number' in a for a in e['trigger'])]
+    ctx.ob('C02.r6', V.name, 'headers given to the MMR verification are rejected unless their block numbers are pairwise distinct', bool(uniq),
+           failing_history=None if uniq else 'request [A, B]: A committed in real block R at height N, B only in a forged block F at height N (easy compact target); response '
+           '[R{A}, F{B}] + the genuine proof for R: the library drops F\'s leaf, the proof verifies, B is stored as committed')
     # reviewed reference of the checker functions' decision structure (engine/census.py)
     from rules import census_fns
     census_fns.run(ctx, 'C02')
